@@ -17,6 +17,13 @@ BG = "magpylib/_src/obj_classes/class_BaseGeo.py"
 FD = "magpylib/_src/fields/"
 FWB = FD + "field_wrap_BH.py"
 MUTANTS = [
+    ("C08", "reset-forgets-orientation", FWB, "            obj._position = obj._position[:m0]\n            obj._orientation = obj._orientation[:m0]\n", "            obj._position = obj._position[:m0]\n", "red"),
+    ("C08", "reset-not-in-finally", FWB, "    finally:\n        # reset tiled objects", "    except MagpylibBadUserInput:\n        raise\n    else:\n        # reset tiled objects", "red"),
+    ("C08", "reset-wrong-length", FWB, "            obj._position = obj._position[:m0]\n", "            obj._position = obj._position[: m0 + 1]\n", "red"),
+    ("C08", "callee-writes-pose", FWB, "    poss = np.array([src._position for src in group])\n", "    poss = np.array([src._position for src in group])\n    group[0]._position = poss[0]\n", "red"),
+    ("C08", "sphere-writes-polarization-argument", FD + "field_BH_sphere.py", "    BHJM = polarization.astype(float)\n    out = r > r_sphere", "    BHJM = polarization\n    out = r > r_sphere", "red"),
+    ("C08", "dict-interface-no-copy", FWB, "                val = np.array(val, dtype=float)\n        except TypeError as err:", "                val = np.asarray(val, dtype=float)\n        except TypeError as err:", "red"),
+    ("C08", "tile-orientation-first", FWB, "                tile_orient = np.tile(obj._orientation.as_quat()[-1], (m_tile, 1))", "                tile_orient = np.tile(obj._orientation.as_quat()[0], (m_tile, 1))", "equivalent"),
     ("C03", "level1-forward-rotation", FWB, "orientation.apply(observers - position, inverse=True)", "orientation.apply(observers - position)", "red"),
     ("C03", "level1-back-rotation-inverse", FWB, "        BH = orientation.apply(BH)", "        BH = orientation.apply(BH, inverse=True)", "red"),
     ("C06", "src-pose-tiling-order", FWB, "    posv = np.tile(poss, n_pix).reshape((-1, 3))", "    posv = np.repeat(poss, n_pix, axis=0).reshape((-1, 3))", "red"),
